@@ -358,7 +358,7 @@ pub fn replay(case: &Value) -> Result<String, String> {
 pub fn plan(tier: Tier) -> Plan {
     let mut p = Plan::new("C05", "model_checking");
     let thorough = tier.thorough();
-    p.rule = "every k-tuple (k=1..4) of subsets of U4={'',a,ab,b} and (k=5,6) of U3={'',a,b}, and (k=2,3) of Unul={'',00,a,a00} (keys differing only in trailing NUL bytes) and of Ulong (8-11 byte keys sharing a 7-byte prefix), values 10*stream+key-index and constant 5 (heap ties), stream kinds {whole FST, range().ge(''), search(AlwaysMatch), user Vec streamer} (all kind vectors for k<=3 quick / k<=4 thorough, a rotating vector above), four operations through raw/map/set OpBuilder (+FromIterator/Extend/op().add() forms, and builders that already hold streams extended twice - also with empty iterators - at every split point, then pushed to), IndexedValue lists compared as sets; is_disjoint/is_subset/is_superset for all ordered pairs x stream kinds; finite family of 7..40, 64, 100, 257, 300 operand streams over a 6-key universe (4 layouts each). non-trivial = tuples with k >= 2 and at least two non-empty streams".into();
+    p.rule = "every k-tuple (k=1..4) of subsets of U4={'',a,ab,b} and (k=5,6) of U3={'',a,b}, and (k=2,3) of Unul={'',00,a,a00} (keys differing only in trailing NUL bytes) and of Ulong (8-11 byte keys sharing a 7-byte prefix), values 10*stream+key-index and constant 5 (heap ties), stream kinds {whole FST, range().ge(''), search(AlwaysMatch), user Vec streamer} (all kind vectors for k<=3 quick / k<=4 thorough, a rotating vector above), four operations through raw/map/set OpBuilder (+FromIterator/Extend/op().add() forms, and builders that already hold streams extended twice - also with empty iterators - at every split point, then pushed to), IndexedValue lists compared as sets; is_disjoint/is_subset/is_superset for all ordered pairs x stream kinds; finite family of 7..40, 64, 100, 257, 300 operand streams over a 6-key universe (4 layouts each); run-length family: every sequence of <= 4 (2 streams) / <= 3 (3 streams) segments, a segment being 1, 7, 8, 9 or 17 (thorough up to 33) consecutive keys held by one fixed non-empty group of the streams, neighbours differing in the group. non-trivial = tuples with k >= 2 and at least two non-empty streams".into();
     p.assumptions = vec!["order inside an IndexedValue list is unspecified and is normalised before comparison".into()];
     let u4: Vec<Key> = vec![b"".to_vec(), b"a".to_vec(), b"ab".to_vec(), b"b".to_vec()];
     let u3: Vec<Key> = vec![b"".to_vec(), b"a".to_vec(), b"b".to_vec()];
@@ -441,6 +441,68 @@ pub fn plan(tier: Tier) -> Plan {
                         }
                     },
                 ));
+            }
+        }
+    }
+    // run-length family: long runs of keys that come from one stream only (or from a fixed
+    // group of streams), separated by shared keys - state that an implementation may carry
+    // from key to key (fast paths for runs, recycled slots) across 8 / 16 / 32 consecutive keys
+    {
+        let ls2: Vec<usize> = if thorough { vec![1, 2, 7, 8, 9, 15, 16, 17, 33] } else { vec![1, 7, 8, 9, 17] };
+        let ls3: Vec<usize> = if thorough { vec![1, 8, 9, 17] } else { vec![1, 8, 9] };
+        for (nstreams, ls, maxseg) in [(2usize, ls2, 4usize), (3, ls3, 3)] {
+            let whos: Vec<u8> = (1..(1u8 << nstreams)).collect();
+            let mut kinds_of_seg: Vec<(u8, usize)> = vec![];
+            for &w in &whos { for &l in &ls { kinds_of_seg.push((w, l)); } }
+            // all sequences of 1..=maxseg segments whose neighbours differ in `who`
+            let mut seqs: Vec<Vec<(u8, usize)>> = kinds_of_seg.iter().map(|x| vec![*x]).collect();
+            let mut frontier = seqs.clone();
+            for _ in 1..maxseg {
+                let mut next = vec![];
+                for sq in &frontier {
+                    for k in &kinds_of_seg {
+                        if k.0 != sq.last().unwrap().0 {
+                            let mut t = sq.clone();
+                            t.push(*k);
+                            next.push(t);
+                        }
+                    }
+                }
+                seqs.extend(next.iter().cloned());
+                frontier = next;
+            }
+            let seqs = Arc::new(seqs);
+            let total = seqs.len() as u64;
+            for (a, b) in ranges(total, 64) {
+                let seqs = seqs.clone();
+                p.units.push(unit("run-length-family-(runs-of-1..33-keys-from-one-group-of-streams)", format!("{} streams, sequences {}..{}", nstreams, a, b), move |st, rep| {
+                    for ci in a..b {
+                        if rep.stopped() { return; }
+                        let sq = &seqs[ci as usize];
+                        let mut streams: Vec<Vec<Kv>> = vec![vec![]; nstreams];
+                        let mut i = 0u64;
+                        for (who, l) in sq {
+                            for _ in 0..*l {
+                                let key = vec![b'k', (i >> 8) as u8, i as u8];
+                                for (j, s) in streams.iter_mut().enumerate() {
+                                    if who & (1 << j) != 0 {
+                                        s.push((key.clone(), 10 * (i + 1) + j as u64));
+                                    }
+                                }
+                                i += 1;
+                            }
+                        }
+                        let srcs: Vec<Src> = streams.into_iter().map(|s| make_src(s).unwrap()).collect();
+                        let refs: Vec<&Src> = srcs.iter().collect();
+                        let kinds: Vec<Kind> = (0..nstreams).map(|j| KINDS[(ci as usize + j) % KINDS.len()]).collect();
+                        st.states += 1;
+                        st.nontrivial += 1;
+                        match run_tuple(&refs, &kinds, false) {
+                            Ok(n) => { st.evals += n; st.transitions += n * i; st.count("run_length_operation_streams", n); }
+                            Err(msg) => rep.violation(format!("runs {:?} kinds {:?}", sq, kinds), msg, json!({"streams": srcs.iter().map(|s| kvs_json(&s.kvs)).collect::<Vec<_>>(), "kinds": kinds.iter().map(|k| format!("{:?}", k)).collect::<Vec<_>>()})),
+                        }
+                    }
+                }));
             }
         }
     }
